@@ -207,7 +207,53 @@ def small_scope(ctx, max_adapter, max_read, rates, cap=None):
     correspond(ctx, "matchto", cases)
 
 
+def cli_tolerance_cases(ctx, n):
+    """the tolerance and minimum-overlap clauses through the command line with several specifications, an earlier one (a `file:` specification too)
+    carrying generous search parameters of its own: a later adapter is still searched with the *global* -e / -O - a copy with more mismatches than
+    floor(rate * length), or a partial copy shorter than -O, must not be removed"""
+    import clirun
+    import pipe
+    rng = ctx.rng
+    for _ in range(n):
+        ad = pipe.rs(rng, 12)
+        other = pipe.rs(rng, 11)
+        O = rng.choice([5, 6, 7])
+        loose = rng.choice([";e=0.3;o=2", ";max_errors=0.34", ";min_overlap=1;e=0.25"])
+        inputs = {}
+        if rng.random() < 0.6:
+            inputs["p.fa"] = f">p1\n{other}\n"
+            spec1 = "file:{in:p.fa}" + loose
+        else:
+            spec1 = "first=" + other + loose
+        reads = []
+        for i in range(10):
+            body = pipe.rs(rng, rng.randint(15, 25), "AC" if ad[0] in "GT" else "GT")
+            if rng.random() < 0.5:
+                cp = list(ad)
+                for j in rng.sample(range(1, 11), rng.choice([2, 3])):
+                    cp[j] = {"A": "C", "C": "G", "G": "T", "T": "A"}[cp[j]]
+                s_ = body + "".join(cp) + pipe.rs(rng, 4, "AC" if ad[0] in "GT" else "GT")      # 2-3 mismatches in 12 bases at -e 0.1
+            else:
+                s_ = body + ad[: rng.randint(3, O - 1)]                                             # a partial copy shorter than -O
+            reads.append((f"r{i}", s_))
+        inputs["in.fasta"] = "".join(f">{n_}\n{s_}\n" for n_, s_ in reads)
+        argv = ["-e", "0.1", "-O", str(O), "--no-indels", "-a", spec1, "-a", "second=" + ad, "--info-file", "{out:info.txt}", "-o", "{out:out.fasta}", "{in:in.fasta}"]
+        res = clirun.run_cli(argv, inputs, want_json=False)
+        ctx.evaluations += 1
+        ctx.count("cli-tolerance-cases")
+        shown = dict(argv=[t.replace("{in:p.fa}", "p.fa") for t in argv], adapter_file=inputs.get("p.fa"), reads=reads)
+        if res.status != 0:
+            ctx.failures.append(Failure("C01/cli-run-failed", "a valid command line with several adapter specifications fails", shown, res.stderr[-300:], 0))
+            continue
+        rows = [l.split("\t") for l in clirun.text_of(res.files.get("info.txt", b"")).splitlines()]
+        bad = [r for r in rows if len(r) > 7 and r[1] != "-1" and r[7] == "second"]
+        if bad:
+            ctx.failures.append(Failure("C01/errors", "a match of an adapter is reported beyond the global tolerance / below the global minimum overlap (no parameter of its own)",
+                                        shown, bad[0][:8], "no match of 'second'"))
+
+
 def run(ctx):
+    cli_tolerance_cases(ctx, ctx.scale(12, 150))
     ctx.rule = ("locate: random Aligner configurations (16 flag sets, both wildcard switches, indel cost 1/100000, rates incl. 1/3, 0.57, 0.9) "
                 "with mutated adapter copies embedded at every offset incl. overhangs; matchto: the eight adapter classes with the always-true "
                 "k-mer finder; non-trivial = distinct case with a reported match that has >= 1 error or an N wildcard in the aligned adapter part")
